@@ -338,6 +338,75 @@ def beyond_bounds(prop, tier, seed, v):
     return stats
 
 
+def scenarios(prop):
+    """Situations outside the sequential model: a close racing with a pull, an underlying iterator
+    whose aclose() fails, a scope object entered a second time."""
+    from .driver import Suspend  # noqa: PLC0415
+
+    L = tm.load_lib()
+    out = []
+    name = "borrow" if prop == "C07" else "scoped_iter"
+
+    class CloseError(Exception):
+        pass
+
+    def mk(closefails=False, susp=0):
+        rec = Recorder()
+        rec.susp = susp
+        src = ClsSource(rec, 1, [Item(1, p + 1, 1) for p in range(3)])
+        if closefails:
+            async def failing():      # the close fails and the iterator stays usable
+                raise CloseError()
+            src.aclose = failing
+        return rec, src
+
+    def run(aw, rec):
+        return Task(aw, rec.acct).run()
+
+    if prop == "C07":
+        # one consumer is suspended inside handle.__anext__() while another closes the handle: either the
+        # close fails (the handle is busy), or the handle really is closed afterwards
+        rec, src = mk(susp=1)
+        h = L.borrow(src)
+        t1 = Task(h.__anext__(), rec.acct)
+        r1 = t1.step()
+        if r1[0] == "token":
+            rc = run(h.aclose(), rec)
+            t1.run()
+            if rc[0] == "done":
+                before = src.pos
+                r2 = run(h.__anext__(), rec)
+                if not (r2[0] == "raised" and isinstance(r2[1], StopAsyncIteration)) or src.pos != before:
+                    out.append((f"C07/borrow/closed-handle-yields", {"engine": "scenario", "cfg": "close while a pull is suspended",
+                                                                    "observed": repr(r2)[:120], "underlying_advanced": src.pos - before}))
+    else:
+        # the underlying iterator's aclose() raises at the outermost exit: the error surfaces and the handle has ended
+        rec, src = mk(closefails=True)
+        cm = L.scoped_iter(src)
+        h = run(cm.__aenter__(), rec)[1]
+        run(h.__anext__(), rec)
+        rx = run(cm.__aexit__(None, None, None), rec)
+        if not (rx[0] == "raised" and isinstance(rx[1], CloseError)):
+            out.append(("C08/scoped_iter/close-error-swallowed", {"engine": "scenario", "observed": repr(rx)[:120]}))
+        before = src.pos
+        r2 = run(h.__anext__(), rec)
+        if not (r2[0] == "raised" and isinstance(r2[1], StopAsyncIteration)) or src.pos != before:
+            out.append(("C08/scoped_iter/ended-handle-yields", {"engine": "scenario", "cfg": "underlying aclose() raises at exit",
+                                                                "observed": repr(r2)[:120], "underlying_advanced": src.pos - before}))
+        # a scope object that has been left is entered again: refused, or at least the underlying is closed once only
+        rec, src = mk()
+        cm = L.scoped_iter(src)
+        run(cm.__aenter__(), rec)
+        run(cm.__aexit__(None, None, None), rec)
+        r3 = run(cm.__aenter__(), rec)
+        if r3[0] == "done":
+            run(cm.__aexit__(None, None, None), rec)
+        if src.closes != 1:
+            out.append(("C08/scoped_iter/underlying-closed-twice", {"engine": "scenario", "cfg": "the same scope object entered twice",
+                                                                    "expected": 1, "observed": src.closes}))
+    return out
+
+
 def check(prop, tier, seed, into=None):
     v = into or Verdict(prop, tier, seed)
     tot = {"states": 0, "transitions": 0, "paths": 0, "replays": 0}
@@ -357,6 +426,8 @@ def check(prop, tier, seed, into=None):
         if paths:
             v.sample({"underlying": ukinds, "history": [e["a"] for e in paths[len(paths) // 2]]})
     tstats = beyond_bounds(prop, tier, seed, v) if into is None else {}
+    for sig, d in scenarios(prop):
+        v.violation(sig, d)
     v.assumptions += ["tools that close their input are represented by islice (takes exactly j) and zip (pulls one more than it yields)",
                       "the underlying iterator is an instrumented class-based iterator or async generator with aclose"]
     return v.finish({
